@@ -74,6 +74,11 @@ def enumFromN {α} : Nat → List α → List (Nat × α)
 def idleList (emps : List Emp) : List Nat :=
   ((enumFromN 0 emps).map (fun ie => List.replicate ie.2.idle.toNat ie.1)).flatten
 
+/-- `[(e.num_tasks + len(assignments[i]), random.random(), i) for i, e in enumerate(...)]` -/
+def loadKeys {α} (emps : List Emp) (asg : List (List α)) (rs : List Nat) : List LoadKey :=
+  (enumFromN 0 emps).map (fun ie =>
+    ((ie.2.numTasks + ((asg.getD ie.1 []).length : Int)), rs.getD ie.1 0, ie.1))
+
 /-- `ServerBase.assign_tasks`; `shuf` = the shuffled `idle_id_repeated_list`,
     `rs` = the `random.random()` tie-break values (one per employee). -/
 def assignTasks {α} (emps : List Emp) (tasks : List α) (shuf : List Nat) (rs : List Nat) :
@@ -83,9 +88,7 @@ def assignTasks {α} (emps : List Emp) (tasks : List α) (shuf : List Nat) (rs :
   if tasks.length ≤ shuf.length then asg1
   else
     let remaining := tasks.drop shuf.length
-    let keys := sortKeys ((enumFromN 0 emps).map (fun ie =>
-      ((ie.2.numTasks + ((asg1.getD ie.1 []).length : Int)), rs.getD ie.1 0, ie.1)))
-    leastLoop asg1 keys remaining.reverse
+    leastLoop asg1 (sortKeys (loadKeys emps asg1 rs)) remaining.reverse
 
 -- -------------------------------------------- relational spec for observed runs
 /-- number of tasks among `asg` given to employee `e` -/
